@@ -353,6 +353,9 @@ func cmdCheck(args []string) int {
 			trusted = append(trusted, "axiom: "+at.ax.Name+" ("+filepath.Base(at.ax.File)+")")
 		}
 	}
+	for _, im := range eng.immutableNote {
+		trusted = append(trusted, "field assumed immutable after construction (survives havoc): "+im)
+	}
 	trusted = append(trusted, baseAssumptions...)
 	{
 		var keep []string
